@@ -26,6 +26,8 @@ impl Rng {
 #[derive(Default)]
 struct Journal {
     handled: Vec<u64>,
+    /// handlers entered (before any gate)
+    entered: u64,
     stopped: bool,
 }
 
@@ -66,6 +68,7 @@ struct Poison(u64);
 impl Worker {
     #[handler]
     async fn job(&mut self, j: Job, _r: &ActorRef<Self>) -> Receipt {
+        self.journal.lock().unwrap().entered += 1;
         if j.1 {
             if let Some(g) = &self.gate {
                 let p = g.acquire().await.expect("gate closed");
@@ -397,6 +400,95 @@ fn scenario_timeout(seed: u64) {
 }
 
 // ------------------------------------------------------------------------------------------------
+// C17: several plain threads call the timeout variants at the same instant against an actor that does
+// not drain: at most `capacity` of them may succeed, every other call must come back with Timeout
+// (never early) while the actor is still gated - a call that waits for the actor instead hangs here,
+// because the gate is only opened after all callers have returned (Miri then reports a deadlock).
+fn scenario_contended(seed: u64) {
+    let mut rng = Rng(seed);
+    let rt = rt();
+    let cap = 2 + rng.below(2) as usize;
+    let (r, jh, journal, gate) = new_actor(&rt, cap, true);
+    let gate = gate.unwrap();
+    // park the actor inside a handler; wait until it has taken that message so the mailbox is empty
+    r.blocking_tell(Job(1, true), None).unwrap();
+    while journal.lock().unwrap().entered == 0 {
+        std::thread::sleep(Duration::from_millis(1));
+    }
+    let dl0 = rsactor::dead_letter_count();
+    r.blocking_tell(Job(2, false), None).unwrap();
+    // now: Job 2 sits in the mailbox; fill up so that exactly one slot is free
+    let mut queued = 1;
+    while queued + 1 < cap {
+        r.blocking_tell(Job(3, false), None).unwrap();
+        queued += 1;
+    }
+    let free = cap - queued;
+    let callers = 3 + rng.below(2);
+    let t = Duration::from_millis(15 + rng.below(20));
+    let barrier = Arc::new(std::sync::Barrier::new(callers as usize));
+    let mut hs = Vec::new();
+    for i in 0..callers {
+        let r = r.clone();
+        let b = barrier.clone();
+        let use_ask = rng.below(3) == 0;
+        hs.push(std::thread::spawn(move || {
+            b.wait();
+            let t0 = Instant::now();
+            let res = if use_ask { r.blocking_ask(Job(100 + i, false), Some(t)).map(|_| ()) } else { r.blocking_tell(Job(100 + i, false), Some(t)) };
+            (res.map_err(|e| err_kind(&e)), t0.elapsed(), use_ask)
+        }));
+    }
+    let mut oks = 0;
+    let mut timeouts = 0u64;
+    let mut tell_results: Vec<(u64, bool)> = Vec::new(); // (message id, returned Ok)
+    for (i, h) in hs.into_iter().enumerate() {
+        let (res, el, use_ask) = h.join().unwrap();
+        match res {
+            Ok(()) => {
+                oks += 1;
+                if use_ask {
+                    violation("C17", "reply-from-gated-actor", "blocking_ask returned Ok although the actor was gated shut".into());
+                } else {
+                    tell_results.push((100 + i as u64, true));
+                }
+            }
+            Err("Timeout") => {
+                timeouts += 1;
+                if !use_ask {
+                    tell_results.push((100 + i as u64, false));
+                }
+                if el < t {
+                    violation("C17", "timeout-early", format!("timed out after {el:?}, before the {t:?} deadline"));
+                }
+            }
+            other => violation("C17", "unexpected-error", format!("contended timeout call returned {other:?}")),
+        }
+    }
+    ev(format!("contended cap={cap} free={free} callers={callers} ok={oks} timeouts={timeouts}"));
+    let delta = rsactor::dead_letter_count() - dl0;
+    if delta != timeouts {
+        violation("C13", "counter-delta", format!("dead_letter_count grew by {delta}, {timeouts} calls timed out"));
+    }
+    gate.add_permits(64);
+    rt.block_on(r.stop()).unwrap();
+    let _ = rt.block_on(jh);
+    let j = journal.lock().unwrap();
+    // every message that got into the mailbox is handled once the gate is open: that many were accepted
+    let accepted = j.handled.iter().filter(|id| **id >= 100).count();
+    ev(format!("handled {} accepted-from-callers {accepted}", j.handled.len()));
+    if accepted != free {
+        violation("C09", "contended-acceptance", format!("{callers} concurrent callers found {free} free slot(s) but {accepted} of their messages were accepted"));
+    }
+    for (id, ok) in tell_results {
+        let handled = j.handled.contains(&id);
+        if ok != handled {
+            violation("C17", "tell-result-vs-delivery", format!("blocking_tell of {id} returned {} but the message was {}", if ok { "Ok" } else { "Timeout" }, if handled { "handled" } else { "never handled" }));
+        }
+    }
+}
+
+// ------------------------------------------------------------------------------------------------
 // C17: timeout variants can be called inside an async runtime context without panicking
 fn scenario_in_runtime(seed: u64) {
     let mut rng = Rng(seed);
@@ -501,6 +593,7 @@ fn main() {
         "blocking" => scenario_blocking(seed),
         "timeout" => scenario_timeout(seed),
         "in_runtime" => scenario_in_runtime(seed),
+        "contended" => scenario_contended(seed),
         "deadletters" => scenario_deadletters(seed),
         "selftest_hang" => scenario_selftest_hang(seed),
         other => {
